@@ -115,7 +115,7 @@ pub fn corpus(format: usize, rng: &mut Rng, m128: bool) -> Vec<u8> {
                 order_seed: if rng.bool() { rng.next() | 1 } else { 0 },
                 unknown_chunks: rng.below(3) as usize,
                 with_creator: rng.bool(),
-                with_ay: rng.bool(),
+                with_ay: rng.chance(3, 4),
                 with_keyb: rng.bool(),
                 with_mouse: rng.bool(),
             };
@@ -190,21 +190,26 @@ pub fn mutate(format: usize, data: &[u8], rng: &mut Rng) -> Vec<u8> {
                     let sz = u32::from_le_bytes([d[p + 4], d[p + 5], d[p + 6], d[p + 7]]) as usize;
                     p = p.saturating_add(8).saturating_add(sz);
                 }
-                if let Some(&o) = offs.get(rng.below(offs.len().max(1) as u64) as usize) {
-                    match rng.below(6) {
+                // prefer the small fixed-layout chunks (registers, ports, AY, keyboard, mouse): every byte of
+                // theirs is a field of its own
+                let small: Vec<usize> = offs.iter().copied().filter(|&o| u32::from_le_bytes([d[o + 4], d[o + 5], d[o + 6], d[o + 7]]) < 64).collect();
+                let pick = if !small.is_empty() && rng.chance(2, 3) { small.get(rng.below(small.len() as u64) as usize).copied() } else { offs.get(rng.below(offs.len().max(1) as u64) as usize).copied() };
+                if let Some(o) = pick {
+                    match rng.below(7) {
                         0 => {
                             let sz = u32::from_le_bytes([d[o + 4], d[o + 5], d[o + 6], d[o + 7]]);
                             let nv = *rng.pick(&[0u32, 1, 2, sz.wrapping_sub(1), sz.wrapping_add(1), 0x7FFF_FFFF, 0xFFFF_FFFF, 36, 3]);
                             d[o + 4..o + 8].copy_from_slice(&nv.to_le_bytes());
                         }
                         1 => d[o + rng.below(4) as usize] = *rng.pick(&[0xFFu8, 0x80, 0xC3, b'z', 0]),
-                        2 => {
-                            // body byte with an interesting value (IM, border, page number, flags ...)
+                        2 | 5 => {
+                            // body byte with an interesting or random value (IM, border, page number, flags,
+                            // selected AY register, machine id ...)
                             let sz = u32::from_le_bytes([d[o + 4], d[o + 5], d[o + 6], d[o + 7]]) as usize;
                             if sz > 0 && o + 8 < d.len() {
                                 let i = o + 8 + rng.below(sz.min(40) as u64) as usize;
                                 if i < d.len() {
-                                    d[i] = *rng.pick(&interesting);
+                                    d[i] = if rng.bool() { *rng.pick(&interesting) } else { rng.u8() };
                                 }
                             }
                         }
@@ -305,7 +310,7 @@ impl C15 {
             ..Default::default()
         };
         let alloc_bound = (64usize << 20) + 1100 * data.len();
-        let cfg = MCfg { m128, fastload: true, ..Default::default() };
+        let cfg = MCfg { m128, fastload: true, ay: data.len() % 2 == 0, kempston: data.len() % 3 == 0, mouse: data.len() % 5 < 2, ..Default::default() };
         let mut calls = 0u64;
         let mut e = new_emu(&cfg);
         let mut result: &'static str = "ok";
@@ -429,6 +434,22 @@ impl C15 {
         if format <= 4 {
             let r2 = runner::catch(|| {
                 let mut ok = true;
+                // whatever state the load attempt left in the devices must be usable: touch every port
+                // family the way a program would (AY data read/write without re-selecting a register,
+                // ULA, paging, joystick, mouse), then run frames
+                {
+                    let bus = e.verif_bus();
+                    let _ = bus.read_io(0xFFFD);
+                    bus.write_io(0xBFFD, 0x00);
+                    let _ = bus.read_io(0xFFFD);
+                    let _ = bus.read_io(0xFEFE);
+                    bus.write_io(0x00FE, 0x07);
+                    let _ = bus.read_io(0x001F);
+                    let _ = bus.read_io(0xFADF);
+                    let _ = bus.read_io(0xFBDF);
+                    let _ = bus.read_io(0xFFDF);
+                    let _ = bus.read_io(0x7FFD);
+                }
                 for _ in 0..3 {
                     set_break_mode(&mut e, BreakMode::Never);
                     e.set_speed(rustzx_core::EmulationMode::FrameCount(1));
@@ -481,7 +502,7 @@ impl Property for C15 {
         }
     }
     fn rule(&self) -> &'static str {
-        "per run one format (SNA, SZX, SCR, TAP, ROM, gzip, VTX), machine and corpus file (independent writers or repository assets); mode sweep: the load is repeated with a read error, a seek error at every asset call index k, with short reads and with both EOF styles (enumeration of fault positions of that load); mode mutate: 12 structure-aware mutations (truncation at structural boundaries +-1, bit flips, length/size/count fields 0,1,max-1,max, non-UTF-8 chunk ids, out-of-range IM/border/page fields, duplicated/shortened chunks, oversize); mode random: random byte strings up to 160 KiB. distinct = (format, machine, outcome, fault kind, chunked?) ; every distinct panic site is its own finding identity"
+        "per run one format (SNA, SZX, SCR, TAP, ROM, gzip, VTX), machine and corpus file (independent writers or repository assets); mode sweep: the load is repeated with a read error, a seek error at every asset call index k, with short reads and with both EOF styles (enumeration of fault positions of that load); mode field-sweep: every byte of the SNA header / SZX header and small chunks set to 5 boundary values, one at a time; mode mutate: 12 structure-aware mutations (truncation at structural boundaries +-1, bit flips, length/size/count fields 0,1,max-1,max, non-UTF-8 chunk ids, out-of-range IM/border/page fields, duplicated/shortened chunks, oversize); mode random: random byte strings up to 160 KiB. distinct = (format, machine, outcome, fault kind, chunked?) ; every distinct panic site is its own finding identity"
     }
     fn state_measure(&self) -> &'static str {
         "none"
@@ -500,7 +521,7 @@ impl Property for C15 {
         ]
     }
     fn expected_probes(&self) -> Vec<&'static str> {
-        vec!["sweep_read_err", "sweep_seek_err", "mutated", "random_bytes", "outcome_ok", "outcome_err", "eof_ok0", "eof_err", "short_reads"]
+        vec!["sweep_read_err", "sweep_seek_err", "mutated", "random_bytes", "outcome_ok", "outcome_err", "eof_ok0", "eof_err", "short_reads", "field_sweep"]
     }
     fn minimise_budget(&self) -> usize {
         60
@@ -517,6 +538,7 @@ impl Property for C15 {
         let mode = match (idx / 7) % 6 {
             0 => 0, // sweep
             5 => 2, // random
+            4 if format <= 1 => 3, // field sweep over the fixed-layout parts
             _ => 1, // mutate
         };
         sc.set("mode", mode);
@@ -537,7 +559,13 @@ impl Property for C15 {
             }
             sc.push(Op::blob("file", &[], d));
         } else {
-            sc.push(Op::blob("file", &[], corpus(format as usize, rng, file128)));
+            if mode == 3 && format == 1 {
+                let s = sample_state(rng, file128);
+                let opt = SzxOptions { compress: vec![true; 8], order_seed: 0, unknown_chunks: 1, with_creator: true, with_ay: true, with_keyb: true, with_mouse: true };
+                sc.push(Op::blob("file", &[], write_szx(&s, &opt)));
+            } else {
+                sc.push(Op::blob("file", &[], corpus(format as usize, rng, file128)));
+            }
         }
         sc
     }
@@ -586,6 +614,44 @@ impl Property for C15 {
                         let o = self.one_case(format, m128, d, chunk, st, Fault::None, ctx, &format!("file truncated to {} bytes", d.len()));
                         note(&o, ctx);
                         ctx.fault("truncate@n");
+                    }
+                }
+            }
+            3 => {
+                // field sweep: every byte of the fixed-layout parts (SNA header; SZX header and the small
+                // chunks) takes a few boundary values, one at a time
+                let mut positions: Vec<usize> = vec![];
+                if format == 0 {
+                    positions.extend(0..27.min(base.len()));
+                    if base.len() > 49182 {
+                        positions.extend(49179..49183);
+                    }
+                } else {
+                    positions.extend(0..8.min(base.len()));
+                    let mut p = 8usize;
+                    while p + 8 <= base.len() {
+                        let sz = u32::from_le_bytes([base[p + 4], base[p + 5], base[p + 6], base[p + 7]]) as usize;
+                        positions.extend(p..p + 8);
+                        if sz < 64 {
+                            positions.extend(p + 8..(p + 8 + sz).min(base.len()));
+                        } else {
+                            positions.extend(p + 8..(p + 8 + 3).min(base.len()));
+                        }
+                        p = p.saturating_add(8).saturating_add(sz);
+                    }
+                }
+                let mut rng = Rng::new(sc.get("mseed") as u64);
+                for &pos in &positions {
+                    for v in [0xFFu8, 0x10, 0x80, 0x03, rng.u8()] {
+                        if base[pos] == v {
+                            continue;
+                        }
+                        let mut d = base.clone();
+                        d[pos] = v;
+                        let o = self.one_case(format, m128, &d, chunk, eof, Fault::None, ctx, &format!("byte {} of the file set to {:02X}", pos, v));
+                        note(&o, ctx);
+                        ctx.probe("field_sweep");
+                        ctx.fault("len_field_tamper");
                     }
                 }
             }
